@@ -21,9 +21,33 @@ func (w *world) reset(tr *vhlib.Trace) {
 	w.finish(tr, "sync0", "")
 }
 
+// index batch sizes: the production default (100), the tests' 1, and small ones a reorg can exceed
+func pickBatch(r *vhlib.Rand) int { return vhlib.Pick(r, 1, 1, 2, 2, 3, 3, 7, 7, 100) }
+
+// batchDepth is a reorg depth that makes the index manager process at least one batch that consists of reverts only
+// (depth = batch, batch+1 or 2·batch), limited to what the chain allows; 0 when not possible.
+func (w *world) batchDepth(r *vhlib.Rand) int {
+	d := vhlib.Pick(r, w.batch, w.batch+1, 2*w.batch)
+	if max := int(w.host.cm.Tip().Height) - 1; d > max {
+		d = max
+	}
+	if d < w.batch {
+		return 0
+	}
+	return d
+}
+
+// stopPick: sometimes the host is restarted after one or two batches of the catch-up
+func stopPick(r *vhlib.Rand) int {
+	if r.Chance(1, 4) {
+		return 1 + r.Intn(2)
+	}
+	return 0
+}
+
 func genC16(t *testing.T, tr *vhlib.Trace, r *vhlib.Rand, n int) {
 	net := vhlib.Pick(r, "v1", "v1", "v2", "v2", "mix")
-	batch := vhlib.Pick(r, 1, 1, 7, 100)
+	batch := pickBatch(r)
 	// block timestamps ten minutes apart (as on mainnet) instead of all in one metrics bucket
 	spaced := r.Chance(1, 5)
 	w := newWorld(t, net, batch, spaced)
@@ -72,6 +96,12 @@ func genC16(t *testing.T, tr *vhlib.Trace, r *vhlib.Rand, n int) {
 				continue
 			}
 			reorgs++
+			if bd := w.batchDepth(r); bd > 0 && w.batch > 1 && w.batch <= 7 && r.Chance(1, 2) {
+				// payouts (and whatever the pool holds) inside the range that is reverted in reverts-only batches
+				w.doMine(tr, 1+r.Intn(2), "host", true)
+				w.doReorg(tr, bd, bd+1+r.Intn(2), vhlib.Pick(r, "host", "void"), r.Chance(1, 3), stopPick(r))
+				continue
+			}
 			depth := 1
 			switch r.Intn(6) {
 			case 0, 1, 2:
@@ -98,7 +128,7 @@ func genC16(t *testing.T, tr *vhlib.Trace, r *vhlib.Rand, n int) {
 }
 
 func genC17(t *testing.T, tr *vhlib.Trace, r *vhlib.Rand, n int) {
-	batch := vhlib.Pick(r, 1, 7, 100)
+	batch := vhlib.Pick(r, 1, 2, 3, 7, 100)
 	w := newWorld(t, "v2", batch, false)
 	defer w.close()
 	tr.Count("net:v2")
@@ -129,8 +159,11 @@ func genC17(t *testing.T, tr *vhlib.Trace, r *vhlib.Rand, n int) {
 				continue
 			}
 			reorgs++
-			depth := vhlib.Pick(r, 1, 1, 2, 3, 5, 8, 12, 30, 100, 150)
-			w.doReorg(tr, depth, depth+1+r.Intn(3), vhlib.Pick(r, "host", "void"), false)
+			depth := vhlib.Pick(r, 1, 1, 2, 3, 5, 8, 12, 30, 100, 101, 150)
+			if bd := w.batchDepth(r); bd > 0 && r.Chance(1, 3) {
+				depth = bd
+			}
+			w.doReorg(tr, depth, depth+1+r.Intn(3), vhlib.Pick(r, "host", "void"), false, stopPick(r))
 		default:
 			w.doFresh(tr, 100)
 		}
@@ -168,7 +201,7 @@ func replay(t *testing.T, tr *vhlib.Trace, ops []vhlib.ParsedLine) {
 		case "mine":
 			w.doMine(tr, op.Int("n"), op.Args["to"], op.Int("pool") == 1)
 		case "reorg":
-			w.doReorg(tr, op.Int("depth"), op.Int("len"), op.Args["to"], op.Int("carry") == 1)
+			w.doReorg(tr, op.Int("depth"), op.Int("len"), op.Args["to"], op.Int("carry") == 1, op.Int("stop"))
 		case "send":
 			w.doSend(tr, op.U64("amt"), op.Args["to"], op.Int("unconf") == 1)
 		case "ephem":
